@@ -31,6 +31,12 @@ type Case struct {
 }
 
 // Outcome is what a worker observed for one case.
+// AlsoViolation is a secondary violation of a case.
+type AlsoViolation struct {
+	Sig       string `json:"sig"`
+	Violation string `json:"violation"`
+}
+
 type Outcome struct {
 	N int `json:"n"`
 	// Class is a short label for the outcome histogram ("ok", "error:syntax", ...).
@@ -53,6 +59,9 @@ type Outcome struct {
 	// under the harness's control (a Go race detector report: no false positives, but it needs the racy
 	// interleaving to occur). Such a violation is reported even if re-execution does not reproduce it.
 	Witnessed bool `json:"witnessed,omitempty"`
+	// Also: further violations found in the same case (a case reports one primary violation; the others are
+	// still matched against the recorded findings, and reported if they are not recorded)
+	Also []AlsoViolation `json:"also,omitempty"`
 	// Extra: free-form sub-counters summed by key.
 	Extra map[string]int `json:"extra,omitempty"`
 	// Detail is stored in the replay artefact.
@@ -552,6 +561,11 @@ func MasterMain(id, tier, self string) int {
 		}
 		if o.Violation != "" {
 			viol = append(viol, o)
+			for _, a := range o.Also {
+				p := o
+				p.Sig, p.Violation, p.Also = a.Sig, a.Violation, nil
+				viol = append(viol, p)
+			}
 		}
 		if o.Gap != "" {
 			gaps = append(gaps, o)
@@ -598,6 +612,13 @@ func MasterMain(id, tier, self string) int {
 				w.kill()
 				if o2.Violation != "" && o2.Sig == o.Sig {
 					same++
+				} else {
+					for _, a := range o2.Also {
+						if a.Sig == o.Sig {
+							same++
+							break
+						}
+					}
 				}
 			}
 			conf = fmt.Sprintf("%d/%d", same, reps)
